@@ -103,7 +103,9 @@ class Mirror:
         return self
 
     def inject(self, rel_file, harness_abs, modname, cfg="any(kani, dmntk_verif)"):
-        """Append a child-module declaration to a source file of the mirror."""
+        """Append a child-module declaration to a source file of the mirror (once: a companion check may ask for the same shim again)."""
+        if (rel_file, harness_abs) in self.injected:
+            return
         p = os.path.join(self.src, rel_file)
         with open(p, "a") as f:
             f.write('\n#[cfg(%s)]\n#[path = "%s"]\nmod %s;\n' % (cfg, harness_abs, modname))
@@ -274,6 +276,23 @@ def replay_call(binary, args, timeout=60, stdin=None):
     p = subprocess.run([binary] + [str(a) for a in args], stdout=subprocess.PIPE, stderr=subprocess.PIPE,
                        timeout=timeout, input=stdin.encode() if stdin is not None else None)
     return p.returncode, p.stdout.decode("utf-8", "replace").strip(), p.stderr.decode("utf-8", "replace")
+
+
+def run_companion(check, mirror, tier, modname, subs):
+    """Obligations another property's check decides, run under THIS property's name because this property's statement covers them too
+    (a change seeded against this property is then reported by this property's check, not only by its neighbour's). `subs`: substrings of
+    the obligation names to run."""
+    import importlib
+    mod = importlib.import_module("checks." + modname)
+    saved = getattr(check, "only", None)
+    sel = [s_ for s_ in subs if saved is None or any(u in "%s/M/%s" % (check.pid, s_) for u in saved)]
+    if not sel:
+        return
+    check.only = sel
+    try:
+        mod.run(check, mirror, tier)
+    finally:
+        check.only = saved
 
 
 # --------------------------------------------------------------------------- findings / evidence
